@@ -770,6 +770,12 @@ func (s *State) Commit(repo gitstore.Storer, commitMessage string, createRSLEntr
 				return repo.ResetDueToError(err, PolicyStagingRef, originalCommitID)
 			}
 
+			// The policy staging ref did not exist before, so undoing the
+			// change means removing it again
+			if deleteErr := repo.DeleteReference(PolicyStagingRef); deleteErr != nil {
+				return fmt.Errorf("unable to remove %s, caused by following error: %w", PolicyStagingRef, err)
+			}
+
 			return err
 		}
 	}
@@ -865,6 +871,12 @@ func Apply(ctx context.Context, repo gitstore.Storer, signRSLEntry bool) error {
 	if err := rsl.NewReferenceEntry(PolicyRef, policyStagingTip).Commit(repo, signRSLEntry); err != nil {
 		if !policyTip.IsZero() {
 			return repo.ResetDueToError(err, PolicyRef, policyTip)
+		}
+
+		// The policy ref did not exist before, so undoing the change means
+		// removing it again
+		if deleteErr := repo.DeleteReference(PolicyRef); deleteErr != nil {
+			return fmt.Errorf("unable to remove %s, caused by following error: %w", PolicyRef, err)
 		}
 
 		return err
@@ -1039,7 +1051,11 @@ func ReconcileStaging(repo gitstore.Storer, signCommit bool) error {
 			return err
 		}
 
-		return rsl.NewReferenceEntry(PolicyStagingRef, policyTip).Commit(repo, signCommit)
+		if err := rsl.NewReferenceEntry(PolicyStagingRef, policyTip).Commit(repo, signCommit); err != nil {
+			return repo.ResetDueToError(err, PolicyStagingRef, policyStagingTip)
+		}
+
+		return nil
 	}
 
 	// Diverged
@@ -1058,7 +1074,7 @@ func ReconcileStaging(repo gitstore.Storer, signCommit bool) error {
 		return err
 	}
 	if err := rsl.NewReferenceEntry(PolicyStagingRef, policyTip).Commit(repo, signCommit); err != nil {
-		return err
+		return repo.ResetDueToError(err, PolicyStagingRef, policyStagingTip)
 	}
 
 	// TODO: fix RSL entries for staging that are now orphaned
